@@ -46,6 +46,42 @@ theorem fact_prefixes_distinct : (Kind.all.map todayPrefix).Nodup := by decide
 theorem fact_gad_atomic_today : AtomicBurn todayMem ∧ AtomicBurn todayRedis ∧ AtomicBurn todayMemcached := by
   refine ⟨?_, ?_, ?_⟩ <;> (unfold AtomicBurn; decide)
 
+/-- today's s2s-nonce and DPoP-jti consumers check and register in one atomic section (`PutIfAbsent` under the mutex) -/
+theorem fact_mark_atomic_today : AtomicMark todayMem ∧ AtomicMark todayRedis ∧ AtomicMark todayMemcached := by
+  refine ⟨?_, ?_, ?_⟩ <;> (intro m; cases m <;> decide)
+
+/-- `GetAndDelete` and `PutIfAbsent` are built as the model assumes: Lock, deferred Unlock, then the two calls -/
+theorem fact_session_store_shapes :
+    Facts.C05.gadCalls = ["Lock", "Unlock", "Get", "Delete"] ∧ Facts.C05.pifCalls = ["Lock", "Unlock", "Get", "Put"] ∧
+    Facts.C05.memKeySep = "/" ∧ Facts.C05.redisKeySep = "." := by decide
+
+/-- the thread programs make exactly the underlying calls the extracted API calls consist of, path by path
+    (`apiCalls` is pinned to the source by `fact_consumer_calls`; deferred calls run last) -/
+theorem program_matches_api_calls :
+    let code : Key := ⟨.burn .code, "s"⟩
+    let ex := fun (k : Kind) (calls : List ApiCall) => calls.flatMap (expandCall todayMem k)
+    let st := fun (k : Kind) => ([(⟨k, "s"⟩, ⟨"c", 60⟩)] : Store)
+    -- authorization code: GetAndDelete, then the deferred Delete; missing parameter: only the deferred Delete
+    soloOps todayMem 9 (init (st code.ns) [.burn { kind := .code, id := "s", want := "c" }])
+      = ex code.ns ((Kind.burn .code).api.reverse) ∧
+    soloOps todayMem 9 (init (st code.ns) [.burn { kind := .code, id := "s", want := "c", pre := false }])
+      = ex code.ns ((Kind.burn .code).api.take 1) ∧
+    -- OpenID4VP nonce: GetAndDelete; presentations disagree: only the Delete
+    soloOps todayMem 9 (init (st (.burn .vpNonce)) [.burn { kind := .vpNonce, id := "s", want := "c" }])
+      = ex (.burn .vpNonce) ((Kind.burn .vpNonce).api.drop 1) ∧
+    soloOps todayMem 9 (init (st (.burn .vpNonce)) [.burn { kind := .vpNonce, id := "s", want := "c", pre := false }])
+      = ex (.burn .vpNonce) ((Kind.burn .vpNonce).api.take 1) ∧
+    -- request object, user redirect token: GetAndDelete
+    soloOps todayMem 9 (init (st (.burn .reqObj)) [.burn { kind := .reqObj, id := "s", want := "c" }])
+      = ex (.burn .reqObj) (Kind.burn .reqObj).api ∧
+    soloOps todayMem 9 (init (st (.burn .redirect)) [.burn { kind := .redirect, id := "s" }])
+      = ex (.burn .redirect) (Kind.burn .redirect).api ∧
+    -- s2s nonce, DPoP jti: PutIfAbsent (Get, and Set when it missed)
+    soloOps todayMem 9 (init [] [.mark ⟨.s2s, "s"⟩]) = ex (.mark .s2s) (Kind.mark .s2s).api ∧
+    soloOps todayMem 9 (init [] [.mark ⟨.jti, "s"⟩]) = ex (.mark .jti) (Kind.mark .jti).api ∧
+    soloOps todayMem 9 (init (st (.mark .s2s)) [.mark ⟨.s2s, "s"⟩]) = ["get"] := by
+  decide
+
 /-! ### at most once when the consume step is atomic -/
 
 /-- Burn-on-use secrets (authorization code, request object, OpenID4VP nonce, user redirect token):
@@ -74,9 +110,119 @@ theorem at_most_one_success_today (st : Store) (reqs : List Req) (sched : List E
     (hk : k.ns = .burn b) : successes (run todayMem sched (init st reqs)) k ≤ 1 :=
   at_most_one_success_atomic todayMem fact_gad_atomic_today.1 st reqs sched k b hk
 
-/-! ### the two-call shape without a lock is not atomic: negation witness -/
+/-! ### mark-as-used secrets (s2s presentation nonce, DPoP proof id) -/
 
-/-- `GetAndDelete` = Get, then Delete, no lock, on a back-end whose Delete is silent about missing keys -/
+/-- For ANY number of requests and EVERY schedule: two requests that were both accepted with the same nonce / jti
+    finished at least a TTL apart — provided check-and-register is atomic (`AtomicMark`). -/
+theorem mark_successes_separated (cfg : Cfg) (ha : AtomicMark cfg) (st : Store) (reqs : List Req) (sched : List Ev)
+    (i j : Nat) (ri rj : MarkReq) (fi fj : Nat) (hij : i ≠ j)
+    (hi : (run cfg sched (init st reqs)).ths[i]? = some (Thread.mark ri (.done .ok) fi))
+    (hj : (run cfg sched (init st reqs)).ths[j]? = some (Thread.mark rj (.done .ok) fj))
+    (hk : ri.key = rj.key) :
+    fi + cfg.ttl (.mark ri.kind) ≤ fj ∨ fj + cfg.ttl (.mark ri.kind) ≤ fi :=
+  (MInv_run cfg ha sched _ (MInv_init cfg st reqs)).sep i j ri rj fi fj hij hi hj hk
+
+/-- … hence within one TTL at most one request per nonce / jti is accepted -/
+theorem mark_at_most_once_within_ttl (cfg : Cfg) (ha : AtomicMark cfg) (st : Store) (reqs : List Req) (sched : List Ev)
+    (k : Key) (m : MarkKind) (hk : k.ns = .mark m) (hnow : (run cfg sched (init st reqs)).now < cfg.ttl (.mark m)) :
+    successes (run cfg sched (init st reqs)) k ≤ 1 := by
+  have inv := MInv_run cfg ha sched _ (MInv_init cfg st reqs)
+  unfold successes winners
+  apply filter_length_le_one
+  intro i j ta tb hi hj ha' hb'
+  simp only [Bool.and_eq_true, decide_eq_true_eq] at ha' hb'
+  have shape : ∀ (t : Thread), t.key = k → t.won = true → ∃ r f, t = Thread.mark r (.done .ok) f ∧ r.kind = m := by
+    intro t htk htw
+    cases t with
+    | burn r pc f => rw [← htk] at hk; simp [Thread.key, BurnReq.key] at hk
+    | mark r pc f =>
+      rw [← htk] at hk; simp [Thread.key, MarkReq.key] at hk
+      cases pc <;> simp_all [Thread.won, Thread.outcome]
+  obtain ⟨ra, fa, hta, hka⟩ := shape ta ha'.1 ha'.2
+  obtain ⟨rb, fb, htb, hkb⟩ := shape tb hb'.1 hb'.2
+  subst hta; subst htb
+  by_cases hij : i = j
+  · exact hij
+  · have h1 := inv.time i _ hi
+    have h2 := inv.time j _ hj
+    simp [Thread.fin] at h1 h2
+    have := inv.sep i j ra rb fa fb hij hi hj (by
+      have e1 := ha'.1; have e2 := hb'.1
+      simp [Thread.key] at e1 e2; rw [e1, e2])
+    rw [hka] at this
+    omega
+
+theorem mark_at_most_once_within_ttl_today (st : Store) (reqs : List Req) (sched : List Ev) (k : Key) (m : MarkKind)
+    (hk : k.ns = .mark m) (hnow : (run todayMem sched (init st reqs)).now < todayTTL (.mark m)) :
+    successes (run todayMem sched (init st reqs)) k ≤ 1 :=
+  mark_at_most_once_within_ttl todayMem fact_mark_atomic_today.1 st reqs sched k m hk hnow
+
+/-! ### dead secrets -/
+
+/-- A burn-on-use secret that is not visible (absent or expired) is never handed to a request that has not yet passed
+    its Get — in EVERY continuation, for every shape of GetAndDelete (no atomicity needed). -/
+theorem dead_never_honoured (cfg : Cfg) (w : World) (k : Key) (b : BurnKind) (hk : k.ns = .burn b)
+    (hdead : stGet cfg.expInclusive w.store w.now k = none)
+    (i : Nat) (t : Thread) (hi : w.ths[i]? = some t) (hkey : t.key = k) (hidle : t.idle = true)
+    (s : List Ev) (t' : Thread) (ht' : (run cfg s w).ths[i]? = some t') : t'.took = false := by
+  have inv : DInv cfg k i w := ⟨hdead, fun t0 h0 => by rw [hi] at h0; injection h0 with h0; subst h0; exact ⟨hkey, hidle⟩⟩
+  exact idle_not_took _ ((DInv_run cfg k b hk i s w inv).idle t' ht').2
+
+/-- after the TTL the secret is gone: a request that starts then is refused, whatever happens concurrently -/
+theorem dead_after_ttl (cfg : Cfg) (w : World) (k : Key) (b : BurnKind) (hk : k.ns = .burn b)
+    (e : Entry) (he : stFind w.store k = some e) (hexp : alive cfg.expInclusive w.now e.exp = false)
+    (i : Nat) (t : Thread) (hi : w.ths[i]? = some t) (hkey : t.key = k) (hidle : t.idle = true)
+    (s : List Ev) (t' : Thread) (ht' : (run cfg s w).ths[i]? = some t') : t'.took = false :=
+  dead_never_honoured cfg w k b hk (by simp [stGet, he, hexp]) i t hi hkey hidle s t' ht'
+
+/-- An authorization code is dead after ANY finished redemption attempt (successful or failed on any branch after the
+    presence check of `code`): in every schedule `s1` after which some attempt `j` on the code has finished, the code
+    is absent from the store, and every request `i` that had not yet passed its Get at that moment is refused in
+    every continuation `s2`.  Holds for every shape of GetAndDelete. -/
+theorem code_dead_after_failed_attempt (cfg : Cfg) (st : Store) (reqs : List Req) (s1 s2 : List Ev)
+    (j : Nat) (r : BurnReq) (o : Outcome) (f : Nat)
+    (hj : (run cfg s1 (init st reqs)).ths[j]? = some (Thread.burn r (.done o) f)) (hc : r.kind = .code)
+    (i : Nat) (t : Thread) (hi : (run cfg s1 (init st reqs)).ths[i]? = some t) (hkey : t.key = r.key) (hidle : t.idle = true)
+    (t' : Thread) (ht' : (run cfg s2 (run cfg s1 (init st reqs))).ths[i]? = some t') :
+    stFind (run cfg s1 (init st reqs)).store r.key = none ∧ t'.took = false := by
+  have hgone := CInv_run cfg s1 _ (CInv_init st reqs) j r o f hj hc
+  exact ⟨hgone, dead_never_honoured cfg _ r.key r.kind rfl (stGet_none_of_find_none _ _ _ _ hgone) i t hi hkey hidle s2 t' ht'⟩
+
+/-! ### nonce memory vs. the acceptance window of a service-to-service presentation -/
+
+/-- a JSON-LD presentation is accepted from `created − skew` to `expires + skew` and may be valid for at most
+    `s2sMaxPresentationValidity`: the window in which a copy of it is still acceptable -/
+def s2sWindow : Nat := Facts.C05.s2sMaxPresentationValidity + 2 * Facts.C05.verifierMaxSkew
+
+/-- the nonce of a presentation is remembered for at least as long as the presentation can be accepted -/
+def NonceCoversWindow : Prop := s2sWindow ≤ todayTTL (.mark .s2s)
+
+theorem nonce_covers_window : NonceCoversWindow := by unfold NonceCoversWindow s2sWindow; decide
+
+/-- window offsets (first use, replay) at which a copy is still acceptable while its nonce is already forgotten -/
+def replayWindow (ttl window : Nat) : List (Nat × Nat) :=
+  (List.range (window + 1)).flatMap fun a => ((List.range (window + 1)).filter fun b => decide (a + ttl ≤ b ∧ b < a + window)).map fun b => (a, b)
+
+/-- today there is no such pair; with the nonce TTL of `validity + skew` (10 s, as before 375d6d0) there were -/
+theorem replay_window_empty_today : replayWindow (todayTTL (.mark .s2s)) s2sWindow = [] ∧ replayWindow 10 15 ≠ [] := by decide
+
+/-- composition with `mark_successes_separated`: whenever the TTL covers a window, two accepted requests with the
+    same s2s nonce are at least that window apart — for every schedule -/
+theorem s2s_no_replay_inside_window (cfg : Cfg) (ha : AtomicMark cfg) (window : Nat) (hcov : window ≤ cfg.ttl (.mark .s2s))
+    (st : Store) (reqs : List Req) (sched : List Ev) (i j : Nat) (ri rj : MarkReq) (fi fj : Nat) (hij : i ≠ j)
+    (hi : (run cfg sched (init st reqs)).ths[i]? = some (Thread.mark ri (.done .ok) fi))
+    (hj : (run cfg sched (init st reqs)).ths[j]? = some (Thread.mark rj (.done .ok) fj))
+    (hk : ri.key = rj.key) (hs : ri.kind = .s2s) : fi + window ≤ fj ∨ fj + window ≤ fi := by
+  have := mark_successes_separated cfg ha st reqs sched i j ri rj fi fj hij hi hj hk
+  rw [hs] at this
+  omega
+
+/-! ### the two-call shapes without a lock are not atomic: negation witnesses
+    (the code before 8cb8dd5 / 97727dc; still the situation of several nodes sharing one Redis, whose mutexes are
+    per process) -/
+
+/-- `GetAndDelete` = Get, then Delete, no lock, on a back-end whose Delete is silent about missing keys;
+    mark consumers = Get, then Put, no lock -/
 def cfgTwoCalls : Cfg :=
   { gad := .twoCalls, gadRawDelete := true, strictDelete := false, expInclusive := true,
     mark := fun _ => .getThenPut, ttl := fun _ => 60 }
@@ -90,8 +236,69 @@ theorem two_success_witness :
     successes (run cfgTwoCalls witnessSched (init witnessStore [witnessCodeReq, witnessCodeReq])) ⟨.burn .code, "s1"⟩ = 2 := by
   decide
 
-/-- non-vacuity of `at_most_once_atomic`: under the lock the same schedule honours one request -/
+/-- launch both, get₁ get₂ put₁ put₂ -/
+def witnessMarkSched : List Ev := [.step 0, .step 1, .step 0, .step 1, .step 0, .step 1]
+
+theorem two_success_witness_mark :
+    successes (run cfgTwoCalls witnessMarkSched (init [] [.mark ⟨.s2s, "n1"⟩, .mark ⟨.s2s, "n1"⟩])) ⟨.mark .s2s, "n1"⟩ = 2 ∧
+    successes (run cfgTwoCalls witnessMarkSched (init [] [.mark ⟨.jti, "n1"⟩, .mark ⟨.jti, "n1"⟩])) ⟨.mark .jti, "n1"⟩ = 2 := by
+  decide
+
+/-- the full-strength statement for an arbitrary configuration (false for `cfgTwoCalls`, see above) -/
+def AtMostOnceStmt (cfg : Cfg) : Prop :=
+  ∀ (st : Store) (reqs : List Req) (sched : List Ev) (k : Key) (b : BurnKind), k.ns = .burn b →
+    successes (run cfg sched (init st reqs)) k ≤ 1
+
+theorem at_most_once_fails_without_atomicity : ¬ AtMostOnceStmt cfgTwoCalls := by
+  intro h
+  have := h witnessStore [witnessCodeReq, witnessCodeReq] witnessSched ⟨.burn .code, "s1"⟩ .code rfl
+  rw [two_success_witness] at this
+  omega
+
+/-- what remains true for ANY configuration: in schedules that never separate the Get and the Delete of one
+    GetAndDelete (sequential use, or any interleaving of the other steps) at most one request obtains the secret.
+    Missing for the full statement: the schedules in which another step falls between those two calls. -/
+theorem at_most_once_partial (cfg : Cfg) (st : Store) (reqs : List Req) (sched : List Ev)
+    (hs : NoSplit cfg (init st reqs) sched) (i j : Nat) (ti tj : Thread)
+    (hi : (run cfg sched (init st reqs)).ths[i]? = some ti) (hj : (run cfg sched (init st reqs)).ths[j]? = some tj)
+    (hk : ti.key = tj.key) (hti : ti.took = true) (htj : tj.took = true) : i = j :=
+  (PInv_run cfg sched _ hs (PInv_init cfg st reqs)).uniq i j ti tj hi hj hk hti htj
+
+/-- the same for the mark consumers: schedules that never separate the Get that missed from its Put -/
+theorem mark_separated_partial (cfg : Cfg) (st : Store) (reqs : List Req) (sched : List Ev)
+    (hs : NoSplitMark cfg (init st reqs) sched)
+    (i j : Nat) (ri rj : MarkReq) (fi fj : Nat) (hij : i ≠ j)
+    (hi : (run cfg sched (init st reqs)).ths[i]? = some (Thread.mark ri (.done .ok) fi))
+    (hj : (run cfg sched (init st reqs)).ths[j]? = some (Thread.mark rj (.done .ok) fj))
+    (hk : ri.key = rj.key) :
+    fi + cfg.ttl (.mark ri.kind) ≤ fj ∨ fj + cfg.ttl (.mark ri.kind) ≤ fi :=
+  (QInv_run cfg sched _ hs (QInv_init cfg st reqs)).sep i j ri rj fi fj hij hi hj hk
+
+/-! ### non-vacuity -/
+
+/-- under the lock the witness schedule honours exactly one request (hypotheses of `at_most_once_atomic` are met
+    by a configuration in which something happens) -/
 example : successes (run { cfgTwoCalls with gad := .locked } witnessSched (init witnessStore [witnessCodeReq, witnessCodeReq]))
     ⟨.burn .code, "s1"⟩ = 1 := by decide
+example : AtomicBurn { cfgTwoCalls with gad := .locked } := Or.inr (Or.inl rfl)
+/-- memcached: the unlocked two-call shape is atomic because the second Delete reports the missing key -/
+example : successes (run { cfgTwoCalls with strictDelete := true } witnessSched (init witnessStore [witnessCodeReq, witnessCodeReq]))
+    ⟨.burn .code, "s1"⟩ = 1 := by decide
+/-- a sequential schedule satisfies `NoSplit` and honours one of two requests -/
+example : NoSplit cfgTwoCalls (init witnessStore [witnessCodeReq, witnessCodeReq])
+    [.step 0, .step 0, .step 0, .step 0, .step 1, .step 1, .step 1, .step 1] := (noSplitB_iff _ _ _).mp (by decide)
+/-- the witness schedule does separate the two calls -/
+example : ¬ NoSplit cfgTwoCalls (init witnessStore [witnessCodeReq, witnessCodeReq]) witnessSched :=
+  fun h => absurd ((noSplitB_iff _ _ _).mpr h) (by decide)
+/-- mark consumers under the lock: first accepted, concurrent second refused, a third after the TTL accepted again -/
+example : ((run { cfgTwoCalls with mark := fun _ => .locked } [.step 0, .step 1, .step 0, .step 1, .step 0, .step 1, .step 1, .tick 61, .step 2, .step 2, .step 2]
+    (init [] [.mark ⟨.s2s, "n1"⟩, .mark ⟨.s2s, "n1"⟩, .mark ⟨.s2s, "n1"⟩])).ths.map Thread.outcome) = [some .ok, some .used, some .ok] := by decide
+/-- a failed attempt (wrong client_id) burns the code: the honest request that comes next is refused -/
+example : ((run todayMem [.step 0, .step 0, .step 0, .step 0, .step 1, .step 1, .step 1]
+    (init witnessStore [.burn { kind := .code, id := "s1", want := "clientB" }, witnessCodeReq])).ths.map Thread.outcome)
+    = [some .mismatch, some .notFound] := by decide
+/-- an expired code is refused -/
+example : ((run todayMem [.tick 61, .step 0, .step 0, .step 0]
+    (init witnessStore [witnessCodeReq])).ths.map Thread.outcome) = [some .notFound] := by decide
 
 end Nuts.C05.Props
